@@ -3,6 +3,7 @@
    sets, maps with string / integer keys, structs): text per thrift.DecodeText, JSON per Json.v / Num.v / Base64.v. *)
 From Coq Require Import ZArith List Bool.
 From DG Require Import CaseFormat ProtoWireRef ThriftWire ThriftEdit ThriftEnvelope Json Num Base64 HttpMap.
+From DG Require J2T.
 Import ListNotations.
 Local Open Scope Z_scope.
 
@@ -191,8 +192,33 @@ Section Converters.
     end.
 End Converters.
 
+(* struct-free types go through the C02 model (J2T.j2t, strict policy; its theorems are in props/Properties_C02.v): the bytes it
+   produces are read back with the proved decoder.  Types that contain structs below containers use [json_conv] above
+   (J2T.v does not model the filling of absent fields). *)
+Fixpoint to_j2t (t : tdesc) : option J2T.ty :=
+  match t with
+  | TBase c bin =>
+    if c =? T_BOOL then Some J2T.TBool else if c =? T_BYTE then Some J2T.TByte else if c =? T_I16 then Some J2T.TI16
+    else if c =? T_I32 then Some J2T.TI32 else if c =? T_I64 then Some J2T.TI64 else if c =? T_DOUBLE then Some J2T.TDouble
+    else if c =? T_STRING then Some (if bin then J2T.TBinary else J2T.TString) else None
+  | TList e => option_map J2T.TList (to_j2t e)
+  | TSet e => option_map J2T.TSet (to_j2t e)
+  | TMap k v => match to_j2t k, to_j2t v with Some a, Some b => Some (J2T.TMap a b) | _, _ => None end
+  | TStruct _ => None
+  end.
+
+Definition json_conv_c02 (o : hopts) (t : tdesc) (j : json) : option tval :=
+  match to_j2t t with
+  | Some jt =>
+    match J2T.j2t [] (J2T.mkOpts false false (o_nob64 o) false) jt j with
+    | J2T.Ok bs => decode_all (type_code t) bs
+    | J2T.Err _ => None
+    end
+  | None => json_conv o t j
+  end.
+
 Definition model_j2t (o : hopts) (fl : flavour) (rq : request) (fs : list fdesc) (body : option json) : hres :=
-  http_j2t o fl rq (text_conv o) (json_conv o) 8%nat fs body.
+  http_j2t o fl rq (text_conv o) (json_conv_c02 o) 8%nat fs body.
 
 (* ---- comparison ---- *)
 Definition same_struct (l : list (Z * tval)) (out : tval) : bool := tval_eqb (canon (VStruct l)) (canon out).
@@ -288,9 +314,7 @@ Definition check_1701 (fs : list field) : verdict :=
         match jb with
         | None => VSkip     (* the body is not JSON for the proved parser: outside the domain *)
         | Some jbody =>
-          (* finding 1715: native trie_get (native/map.c) tests  j > len  where the Go twin tests  j >= len : a member key that is not a
-             field of the struct may read one trie node past the index; the fault depends on the neighbouring heap content *)
-          if (ec =? 4) && (impl =? 0) && nonempty body then VKnown 1715 else
+          (* finding 1715 (native trie_get read past the index) is fixed in /repo by 0d2d3ac: a panic is a violation *)
           if ec =? 4 then VBad 4 [] else
           (* SkipGo's model first: it bounds every declared length by the remaining input before converting it to a nat
              (the decoder on malformed output with a huge string length would build that nat) *)
@@ -332,6 +356,25 @@ Definition enc_text (o : hopts) (t : tdesc) (v : tval) : option (list Z) :=
   | _, _ => None
   end.
 
+(* primitive.KitexToString of a list/set of booleans, integers (bytes signed here) or strings: the elements joined by commas *)
+Fixpoint join_comma (l : list (list Z)) : list Z :=
+  match l with [] => [] | [x] => x | x :: r => x ++ 44 :: join_comma r end.
+Definition kitex_elem (t : tdesc) (v : tval) : option (list Z) :=
+  match t, v with
+  | TBase _ _, VBool b => Some (if b =? 1 then txt_true else txt_false)
+  | TBase _ _, VByte z | TBase _ _, VI16 z | TBase _ _, VI32 z | TBase _ _, VI64 z => Some (fmt_int z)
+  | TBase _ false, VString s => Some s
+  | _, _ => None
+  end.
+Definition kitex_text (t : tdesc) (v : tval) : option (list Z) :=
+  match t, v with
+  | TList e, VList _ es | TSet e, VSet _ es => option_map join_comma (all_some (map (kitex_elem e) es))
+  | _, _ => None
+  end.
+(* the text handed to HttpMapping.Response, where the model knows it *)
+Definition http_text (o : hopts) (t : tdesc) (v : tval) : option (list Z) :=
+  if is_complex t then (if o_kitex o then kitex_text t v else None) else enc_text o t v.
+
 Record rexp := mkRexp {
   re_err : Z;                                            (* 0 none, 1 missing required, 3 a mapping failed *)
   re_names : list (list Z);                              (* members of the JSON object *)
@@ -355,7 +398,7 @@ Definition kitex_reread (o : hopts) (f : fdesc) (v : tval) : bool :=
 
 Definition resp_one (q : bool) (o : hopts) (absent : bool) (f : fdesc) (v : tval) : rexp :=
   if q && kitex_reread o f v then mkRexp 5 [] [] [] else
-  let t := enc_text o (f_ty f) v in
+  let t := http_text o (f_ty f) v in
   match resp_field o f (match t with Some x => x | None => opaque_text end) with
   | RODelivered k key _ => mkRexp 0 [] [(k, key, if k =? K_HTTP_CODE then option_map fmt_int (match t with Some x => go_parse_int64 x | None => None end) else t)] []
   | ROSwallowed => rexp_empty
@@ -369,7 +412,7 @@ Definition struct_names (q : bool) (fs : list fdesc) (vals : list (Z * tval)) (o
   flat_map (fun f => if existsb (fun p => fst p =? f_id f) vals then [] else
                      if ((f_req f =? R_REQUIRED) && o_wr o) || ((f_req f =? R_DEFAULT) && o_wd o) then
                        (if negb q then [f_name f] else
-                        match resp_field o f (match enc_text o (f_ty f) (zero_of (f_ty f)) with Some x => x | None => opaque_text end) with
+                        match resp_field o f (match http_text o (f_ty f) (zero_of (f_ty f)) with Some x => x | None => opaque_text end) with
                         | ROSwallowed | RODelivered _ _ _ => []
                         | _ => [f_name f]
                         end)
@@ -395,7 +438,8 @@ Fixpoint plain_chk (q : bool) (fuel : nat) (o : hopts) (t : tdesc) (v : tval) : 
               else if (f_req f =? R_REQUIRED) && negb (o_wr o) then 1
               else if (f_req f =? R_DEFAULT) && negb (o_wd o) then 0
               else if negb q then 0      (* specification: below the reach of the response nothing is mapped, the member goes to the body *)
-              else match resp_field o f (match enc_text o (f_ty f) (zero_of (f_ty f)) with Some x => x | None => opaque_text end) with
+              else if kitex_reread o f (zero_of (f_ty f)) then 5
+              else match resp_field o f (match http_text o (f_ty f) (zero_of (f_ty f)) with Some x => x | None => opaque_text end) with
                    | RODelivered _ _ _ => if nonempty (f_anns f) then 4 else 0    (* the mapping calls a method of the nil response *)
                    | ROError => 3
                    | _ => 0
